@@ -2,6 +2,8 @@ package exec
 
 import (
 	"bytes"
+	"encoding/binary"
+	"encoding/hex"
 	"encoding/json"
 	"fmt"
 	"math/rand"
@@ -140,6 +142,35 @@ func applyEdit(t *wmpt.WeightedMerkleTrie, recs []*bridge.WNode, e PEdit) ([]*br
 		}
 		d := cloneW(recs[e.I-1])
 		recs = append(append(append([]*bridge.WNode(nil), recs[:e.I]...), d), recs[e.I:]...)
+	case "imitate":
+		// node hashes carry no kind tag: a VALUE record whose weight/value bytes spell the hash preimage of a branch
+		// (weight || 16 child hashes) or of a short node (key || child hash, first 8 key bytes read as the weight)
+		// hashes to that node's hash; everything after it is dropped
+		n := at(e.I)
+		if n == nil {
+			return recs, false
+		}
+		v := &bridge.WNode{Kind: 'V'}
+		switch n.Kind {
+		case 'B':
+			for _, k := range n.Kids {
+				if k == nil {
+					v.Value = append(v.Value, bridge.EmptyState...)
+					continue
+				}
+				v.Weight += k.Weight
+				v.Value = append(v.Value, k.Hash...)
+			}
+		case 'S':
+			if len(n.Key) < 8 {
+				return recs, false
+			}
+			v.Weight = binary.BigEndian.Uint64(n.Key[:8])
+			v.Value = append(append([]byte(nil), n.Key[8:]...), n.Child...)
+		default:
+			return recs, false
+		}
+		recs = append(append([]*bridge.WNode(nil), recs[:e.I-1]...), v)
 	case "splice":
 		other, _ := honestRecords(t, uint64(e.J))
 		if e.I < 1 || e.I > len(recs)+1 || e.K < 1 || e.K > len(other) {
@@ -181,6 +212,12 @@ func verifyOutcome(ev map[string]any, root []byte, block uint64, proof []byte) {
 	ev["res"] = res
 	ev["rootmatch"] = res == "ok" && bytes.Equal(hash, root)
 	ev["value"] = string(value)
+	for _, c := range value {
+		if c < 0x20 || c > 0x7e {
+			ev["value"] = "hex:" + hex.EncodeToString(value)
+			break
+		}
+	}
 }
 
 // RunProofPlan replays one TLC tampering plan on the real prover/verifier.
@@ -212,12 +249,15 @@ func RunProofPlan(w *tr.Writer, st *PStats, tid int, p PPlan) {
 		proof = encodeRecords(recs)
 	}
 	ev := map[string]any{"tid": tid, "op": "proof", "entries": entriesJSON(entries), "block": p.Block, "nedits": len(p.Edits),
-		"reweighted": false, "applied": applied, "mforged": p.MForged, "kind": "plan"}
+		"reweighted": false, "imitated": false, "applied": applied, "mforged": p.MForged, "kind": "plan"}
 	var kinds []string
 	for _, e := range p.Edits {
 		kinds = append(kinds, e.E)
 		if e.E == "reweight" {
 			ev["reweighted"] = true
+		}
+		if e.E == "imitate" {
+			ev["imitated"] = true
 		}
 	}
 	verifyOutcome(ev, root, p.Block, proof)
@@ -299,7 +339,19 @@ func RunProofRandom(w *tr.Writer, st *PStats, tid *int, r *rand.Rand) {
 		}
 		proof := append([]byte(nil), honest...)
 		kind := "honest"
-		switch r.Intn(5) {
+		imitated := false
+		switch r.Intn(6) {
+		case 5:
+			// pass the hash preimage of a branch / short record of the honest proof off as a value record
+			kind = "imitate"
+			recs, _ := honestRecords(t, b)
+			i := 1 + r.Intn(len(recs))
+			if nr, ok := applyEdit(t, recs, PEdit{E: "imitate", I: i}); ok {
+				proof = encodeRecords(nr)
+				imitated = true
+			} else {
+				kind = "honest"
+			}
 		case 1:
 			kind = "bitflip"
 			for f := 0; f < 1+r.Intn(3); f++ {
@@ -325,7 +377,7 @@ func RunProofRandom(w *tr.Writer, st *PStats, tid *int, r *rand.Rand) {
 		}
 		*tid++
 		ev := map[string]any{"tid": *tid, "op": "proof", "entries": ej, "block": b, "nedits": map[bool]int{true: 0, false: 1}[kind == "honest"],
-			"reweighted": false, "applied": true, "mforged": false, "kind": kind}
+			"reweighted": false, "imitated": imitated, "applied": true, "mforged": false, "kind": kind}
 		verifyOutcome(ev, root, b, proof)
 		emitProof(w, st, ev, kind)
 	}
